@@ -22,6 +22,18 @@ sys.path.insert(0, ROOT)
 VENV_PY = os.path.join(ROOT, ".venv", "bin", "python")
 PLAIN_PY = "/venv/bin/python"
 NPROC = int(os.environ.get("VERIF_JOBS", "16"))
+# development aids (NOT used by the registered commands): check a scratch copy of d42 instead of /repo and write
+# evidence/replays elsewhere, so that seeded changes can be evaluated without touching /repo or /verif/evidence
+ALT_REPO = os.environ.get("VERIF_REPO") or None
+OUT_ROOT = os.environ.get("VERIF_OUT") or ROOT
+
+
+def child_env():
+    env = dict(os.environ)
+    env.pop("PYTHONPATH", None)
+    if ALT_REPO:
+        env["PYTHONPATH"] = ALT_REPO
+    return env
 EXIT_OK, EXIT_VIOLATION, EXIT_HARNESS_ERROR = 0, 1, 2
 
 
@@ -32,9 +44,8 @@ class Worker:
         self.p = None
 
     def start(self):
-        env = dict(os.environ)
+        env = child_env()
         env["PYTHONHASHSEED"] = "0"
-        env.pop("PYTHONPATH", None)
         self.p = subprocess.Popen([VENV_PY, os.path.join(HERE, "worker.py")], stdin=subprocess.PIPE,
                                   stdout=subprocess.PIPE, stderr=subprocess.DEVNULL, env=env,
                                   text=True, bufsize=1)
@@ -99,7 +110,7 @@ def run_jobs(jobs, progress=None):
                 job = q.get_nowait()
             except queue.Empty:
                 break
-            hard = sum(job["timeouts"]) * 1.5 + 60
+            hard = sum(job["timeouts"]) * 3 + 120
             res = w.run(job, hard)
             n += 1
             if n >= 25:   # recycle: keeps z3/crosshair memory bounded
@@ -182,8 +193,7 @@ def replay(prop, spec, args_expr, goal, keep_dir=None, trace=False):
     with open(path, "w") as f:
         f.write(text)
     os.chmod(path, 0o755)
-    env = dict(os.environ)
-    env.pop("PYTHONPATH", None)
+    env = child_env()
     try:
         cp = subprocess.run([PLAIN_PY, path, "--quiet"] + (["--trace"] if trace else []),
                             capture_output=True, text=True, timeout=300, env=env)
@@ -214,8 +224,7 @@ def load_known_findings(prop):
 def finding_active(entry):
     """Run the entry's witness concretely: exit status 1 <=> the defect is still present."""
     code = entry["witness"]
-    env = dict(os.environ)
-    env.pop("PYTHONPATH", None)
+    env = child_env()
     for k, v in (entry.get("env") or {}).items():
         env[k] = v
     try:
@@ -294,7 +303,7 @@ def run_property(prop, tier, seed, only=None, verbose=True):
         samples = []
         functions = set()
         per_harness = []
-        replay_dir = os.path.join(ROOT, "replays", prop)
+        replay_dir = os.path.join(OUT_ROOT, "replays", prop)
         for jid, (s, fn) in by_id.items():
             res = results.get(jid, {"error": "no result", "fns": {}})
             r = res.get("fns", {}).get(fn)
@@ -365,6 +374,21 @@ def run_property(prop, tier, seed, only=None, verbose=True):
                     inconclusive.append({"harness": s.name, "fn": fn,
                                          "why": "reachability goal %r not witnessed (%s): %s"
                                                 % (goal, r["state"], r["message"][:200])})
+        # ---- engine E2 (and other non-CrossHair obligations) contributed by the harness module
+        extra_cov = {}
+        extra_checks = getattr(mod, "extra_checks", None)
+        if extra_checks and not only:
+            x = extra_checks(tier, seed, replay_dir)
+            obligations += x["obligations"]
+            discharged += x["discharged"]
+            transitions += x.get("queries", 0)
+            solver_s += x.get("solver_s", 0.0)
+            states += x.get("paths", 0)
+            replays += x.get("replays", 0)
+            inconclusive += x.get("inconclusive", [])
+            violations += x.get("violations", [])
+            samples += x.get("samples", [])[:10]
+            extra_cov = x.get("coverage", {})
         if os.path.isdir(replay_dir) and not os.listdir(replay_dir):
             os.rmdir(replay_dir)
 
@@ -408,8 +432,9 @@ def run_property(prop, tier, seed, only=None, verbose=True):
         extra = getattr(mod, "extra_evidence", None)
         if extra:
             ev["coverage"].update(extra())
-        os.makedirs(os.path.join(ROOT, "evidence"), exist_ok=True)
-        with open(os.path.join(ROOT, "evidence", "%s.json" % prop), "w") as f:
+        ev["coverage"].update(extra_cov)
+        os.makedirs(os.path.join(OUT_ROOT, "evidence"), exist_ok=True)
+        with open(os.path.join(OUT_ROOT, "evidence", "%s.json" % prop), "w") as f:
             json.dump(ev, f, indent=1, sort_keys=True)
             f.write("\n")
 
